@@ -132,6 +132,19 @@ theorem run_fork_eq_base (B : Base) (c : Cfg) (fuel : Nat) :
     simp only [run]
     rw [scanFork_eq_scanBase B c fuel s h1, ih _ h2]
 
+/-- an invariant of the unpatched run that implies `safeScan` gives `safeRun` for every length -/
+theorem safeRun_of_invariant (B : Base) (c : Cfg) (fuel : Nat) (Inv : St → Prop)
+    (hsafe : ∀ s, Inv s → safeScan B c fuel s = true)
+    (hstep : ∀ s, Inv s → Inv (scanBase B c fuel s).st) :
+    ∀ (n : Nat) (s : St), Inv s → safeRun B c fuel n s = true := by
+  intro n
+  induction n with
+  | zero => intro s _; rfl
+  | succ n ih =>
+    intro s hs
+    simp only [safeRun, Bool.and_eq_true]
+    exact ⟨hsafe s hs, ih _ (hstep s hs)⟩
+
 /-! ## etoken.Lookup as an if-chain over a table -/
 
 /-- `etoken.Lookup` evaluated over the regenerated if-chain `(word, token, needs GENERICS_V1_CXX)` -/
